@@ -155,13 +155,28 @@ func (d *driver) setup(p rlwe.Parameters, N, t int, pts []uint64, toy bool, maxP
 		if len(ps) > 3 {
 			ps = [][]int{ps[0], ps[len(ps)/2], ps[len(ps)-1]}
 		}
-		for _, order := range ps {
+		for oi, order := range ps {
 			acc := thr.AllocateThresholdSecretShare()
 			var aerr error
 			for k, i := range order {
 				if k == 0 {
 					acc.Copy(shares[i].Poly)
-				} else if e := thr.AggregateShares(acc, shares[i], &acc); e != nil {
+					continue
+				}
+				// the three calling forms: accumulator first, accumulator second, fresh output buffer
+				var e error
+				switch (oi + j) % 3 {
+				case 0:
+					e = thr.AggregateShares(acc, shares[i], &acc)
+				case 1:
+					e = thr.AggregateShares(shares[i], acc, &acc)
+				default:
+					out := thr.AllocateThresholdSecretShare()
+					out.Copy(shares[(i+1)%N].Poly) // a used buffer
+					e = thr.AggregateShares(acc, shares[i], &out)
+					acc = out
+				}
+				if e != nil {
 					aerr = e
 				}
 			}
